@@ -92,10 +92,11 @@ def prepare_harness_module():
     return mod
 
 
-def go_build(cmd_name, tags="verif", race=False):
-    """build /verif/harness/cmd/<cmd_name> against the working tree of REPO"""
+def go_build(cmd_name, tags="verif", race=False, overlay=None, out_name=None):
+    """build /verif/harness/cmd/<cmd_name> against the working tree of REPO.
+    overlay: {path in the tree under test: replacement file} applied with go build -overlay (nothing is written to it)."""
     os.makedirs(BIN, exist_ok=True)
-    out = os.path.join(BIN, cmd_name + ("_race" if race else ""))
+    out = os.path.join(BIN, (out_name or cmd_name) + ("_race" if race else ""))
     with Lock("gobuild"):
         mod = prepare_harness_module()
         if os.path.exists(out):
@@ -103,7 +104,15 @@ def go_build(cmd_name, tags="verif", race=False):
         cmd = ["go", "build", "-modfile", mod, "-tags", tags, "-o", out]
         if race:
             cmd.append("-race")
+        ov = None
+        if overlay:
+            ov = os.path.join(WORK, "overlay_build_%s_%d.json" % (out_name or cmd_name, os.getpid()))
+            with open(ov, "w") as f:
+                json.dump({"Replace": overlay}, f)
+            cmd += ["-overlay", ov]
         p = sh(cmd + ["./cmd/" + cmd_name], cwd=HARNESS, check=False, timeout=900)
+        if ov and os.path.exists(ov):
+            os.remove(ov)
     if p.returncode != 0 or not os.path.exists(out):
         return None, p.stdout
     return out, p.stdout
